@@ -30,6 +30,24 @@ type C10Case struct {
 	N   int      `json:"n"`           // sectors in the contract before the call
 	P   []int    `json:"p,omitempty"` // call parameters, meaning per RPC (see c10Run*)
 	Mut rhpc.Mut `json:"mut"`
+	// Args, when set, calls the function with arguments outside the honest
+	// range against a host that plays along (see c10Args); Mut is then unused.
+	Args string `json:"args,omitempty"`
+}
+
+// c10Args: per client function, the argument shapes outside the honest range.
+// "impossible" ones have no correct answer (the call must return an error);
+// the two degenerate ones (nothing to free / nothing to append) have one and
+// are judged by the ordinary oracle.
+var c10Args = map[string][]string{
+	"roots":  {"empty-contract", "beyond-end", "offset-beyond-end", "zero-length", "zero-length-empty-contract", "huge-length"},
+	"read":   {"beyond-sector", "offset-beyond-sector", "zero-length", "unaligned-end", "overflowing-range"},
+	"free":   {"index-beyond-end", "index-equals-count", "empty-contract", "more-indices-than-sectors", "huge-index", "no-indices"},
+	"append": {"no-sectors"},
+}
+
+func c10ArgsDegenerate(rpc, args string) bool {
+	return (rpc == "free" && args == "no-indices") || (rpc == "append" && args == "no-sectors")
 }
 
 func p(c C10Case, i int) int {
@@ -54,6 +72,10 @@ func genC10(t *rapid.T) C10Case {
 	np := 6
 	for i := 0; i < np; i++ {
 		c.P = append(c.P, rapid.IntRange(0, 70000).Draw(t, "p"))
+	}
+	if l := c10Args[c.RPC]; len(l) > 0 && rapid.IntRange(0, 5).Draw(t, "oddArgs") == 0 {
+		c.Args = rapid.SampledFrom(l).Draw(t, "args")
+		return c
 	}
 	if rapid.IntRange(0, 9).Draw(t, "honest") == 0 {
 		return c
@@ -237,6 +259,9 @@ func runC10With(c C10Case, cs *kit.CaseStats, raw func(idx int, wire []byte) []b
 			return fmt.Errorf("INFRA: %v", err)
 		}
 	default:
+		if c.Args != "" {
+			return runC10Args(ctx, c, cs)
+		}
 		// domain: sector-root and free ranges lie inside the contract
 		if c.RPC == "roots" && mod(c.N, 41) == 0 {
 			c.N = 1
@@ -295,6 +320,144 @@ func runC10With(c C10Case, cs *kit.CaseStats, raw func(idx int, wire []byte) []b
 	}
 	if out.err == nil {
 		cs.Class("outcome=nil")
+	}
+	return nil
+}
+
+// runC10Args calls a client function with arguments that have no honest
+// answer (or a degenerate one) against a host that plays along.
+func runC10Args(ctx context.Context, c C10Case, cs *kit.CaseStats) error {
+	ok := false
+	for _, a := range c10Args[c.RPC] {
+		ok = ok || a == c.Args
+	}
+	if !ok {
+		return fmt.Errorf("HARNESS: argument shape %q does not apply to %s", c.Args, c.RPC)
+	}
+	c.Mut = rhpc.Mut{}
+	switch c.Args {
+	case "empty-contract", "zero-length-empty-contract":
+		c.N = 0
+	default:
+		if mod(c.N, 41) == 0 {
+			c.N = 3
+		}
+	}
+	e := newC10Env(c, baseState())
+	e.host.PlayAlong = true
+	defer e.host.Close()
+	n := uint64(len(e.roots))
+	t := e.host.T
+	cs.Class("rpc=" + c.RPC)
+	cs.Class(c.RPC + "/args=" + c.Args)
+	cs.NonTrivial()
+	degenerate := c10ArgsDegenerate(c.RPC, c.Args)
+	var err error
+	var violation error
+	switch c.RPC {
+	case "roots":
+		var off, ln uint64
+		switch c.Args {
+		case "empty-contract":
+			off, ln = 0, 1+uint64(mod(p(c, 1), 4))
+		case "beyond-end":
+			off = uint64(mod(p(c, 0), int(n)))
+			ln = n - off + 1 + uint64(mod(p(c, 1), 3))
+		case "offset-beyond-end":
+			off, ln = n+1+uint64(mod(p(c, 0), 3)), 1
+		case "zero-length":
+			off, ln = uint64(mod(p(c, 0), int(n)+1)), 0
+		case "zero-length-empty-contract":
+			off, ln = 0, 0
+		case "huge-length":
+			off, ln = 0, 1<<40
+		}
+		var res rhp4.RPCSectorRootsResult
+		res, err = rhp4.RPCSectorRoots(ctx, t, e.cs, e.prices, e.signer, e.contract, off, ln)
+		if err == nil {
+			violation = fmt.Errorf("RPCSectorRoots(offset %d, length %d) on a contract of %d sectors returned nil with %d roots and a revision paying the host %v more: there are no such sector roots", off, ln, n, len(res.Roots), res.Revision.HostOutput.Value.Sub(e.rev.HostOutput.Value))
+		} else if _, sent := rhpc.LastRequest[proto4.RPCSectorRootsRequest](e.host); sent {
+			violation = fmt.Errorf("RPCSectorRoots(offset %d, length %d) on a contract of %d sectors failed (%v) only after the request, which carries the renter's signature over the paying revision, was sent to the host", off, ln, n, err)
+		}
+	case "read":
+		sec := rhpc.PoolSector(mod(p(c, 0), 3))
+		var off, ln uint64
+		switch c.Args {
+		case "beyond-sector":
+			off = proto4.SectorSize - 64*uint64(1+mod(p(c, 1), 8))
+			ln = proto4.SectorSize - off + 64*uint64(1+mod(p(c, 2), 4))
+		case "offset-beyond-sector":
+			off, ln = proto4.SectorSize+64*uint64(1+mod(p(c, 1), 8)), 64
+		case "zero-length":
+			off, ln = 64*uint64(mod(p(c, 1), 1000)), 0
+		case "unaligned-end":
+			off, ln = 64*uint64(mod(p(c, 1), 1000)), 64+uint64(1+mod(p(c, 2), 63))
+		case "overflowing-range":
+			off, ln = 64, ^uint64(0)-31
+		}
+		var buf bytes.Buffer
+		_, err = rhp4.RPCReadSector(ctx, t, e.prices, e.token, &buf, sec.Root, off, ln)
+		if err == nil {
+			violation = fmt.Errorf("RPCReadSector(offset %d, length %d) returned nil (%d bytes written): the range is not a leaf-aligned range of a sector", off, ln, buf.Len())
+		}
+	case "free":
+		var idx []uint64
+		switch c.Args {
+		case "index-beyond-end":
+			idx = []uint64{n + uint64(mod(p(c, 1), 5)) + 1}
+			if mod(p(c, 0), 2) == 1 && n > 0 {
+				idx = append(idx, uint64(mod(p(c, 2), int(n))))
+			}
+		case "index-equals-count":
+			idx = []uint64{n}
+		case "empty-contract":
+			idx = []uint64{uint64(mod(p(c, 1), 3))}
+		case "more-indices-than-sectors":
+			for i := uint64(0); i <= n+1; i++ {
+				idx = append(idx, i)
+			}
+		case "huge-index":
+			idx = []uint64{^uint64(0) - uint64(mod(p(c, 1), 3))}
+		case "no-indices":
+			idx = nil
+		}
+		var res rhp4.RPCFreeSectorsResult
+		res, err = rhp4.RPCFreeSectors(ctx, t, e.signer, e.cs, e.prices, e.contract, idx)
+		if err == nil && !degenerate {
+			violation = fmt.Errorf("RPCFreeSectors(%v) on a contract of %d sectors returned nil (new file size %d, revision %d): there are no such sectors to free", idx, n, res.Revision.Filesize, res.Revision.RevisionNumber)
+		}
+		if err == nil && degenerate {
+			if res.Revision.FileMerkleRoot != e.rev.FileMerkleRoot || res.Revision.Filesize != e.rev.Filesize {
+				violation = fmt.Errorf("RPCFreeSectors(no indices) returned nil with a changed root or file size")
+			} else {
+				violation = e.checkRevision("RPCFreeSectors", e.rev, res.Revision, types.ZeroCurrency)
+			}
+		}
+	case "append":
+		var res rhp4.RPCAppendSectorsResult
+		res, err = rhp4.RPCAppendSectors(ctx, t, e.signer, e.cs, e.prices, e.contract, nil)
+		if err == nil {
+			if res.Revision.FileMerkleRoot != e.rev.FileMerkleRoot || res.Revision.Filesize != e.rev.Filesize || len(res.Sectors) != 0 {
+				violation = fmt.Errorf("RPCAppendSectors(no sectors) returned nil with a changed root, file size or a non-empty list")
+			} else {
+				violation = e.checkRevision("RPCAppendSectors", e.rev, res.Revision, types.ZeroCurrency)
+			}
+		}
+	}
+	if _, _, h := e.host.Status(); h != "" {
+		return fmt.Errorf("HARNESS: %s", h)
+	}
+	if ctx.Err() != nil && err != nil && violation == nil {
+		cs.Inconclusive("client call hit the harness watchdog")
+		return nil
+	}
+	if err == nil {
+		cs.Class("outcome=nil")
+	} else {
+		cs.Class("outcome=rejected")
+	}
+	if violation != nil {
+		return fmt.Errorf("%s with arguments outside the honest range (%s), host playing along: %w", c.RPC, c.Args, violation)
 	}
 	return nil
 }
@@ -710,6 +873,21 @@ func TestC10Enum(t *testing.T) {
 						cs := &kit.CaseStats{}
 						report(c, cs, c10Prop.SafeRun(c, cs))
 					}
+				}
+			}
+		}
+	}
+	// arguments outside the honest range against a host that plays along
+	for _, rpc := range rhpc.RPCs {
+		for _, a := range c10Args[rpc] {
+			if !mine() {
+				continue
+			}
+			for _, n := range []int{1, 2, 5, 8, 13} {
+				for v := 0; v < 4; v++ {
+					c := C10Case{RPC: rpc, N: n, P: []int{v, v * 3, v + 1, 2, 0, 0}, Args: a}
+					cs := &kit.CaseStats{}
+					report(c, cs, c10Prop.SafeRun(c, cs))
 				}
 			}
 		}
